@@ -37,6 +37,9 @@ type c19Case struct {
 	Choices []int    `json:"schedule,omitempty"`
 	Bound   int      `json:"bound,omitempty"`
 	Note    string   `json:"note,omitempty"`
+	// Observed carries the race detector's report for cases of the (sampling)
+	// free-running pass: such a report is a recorded fact, not a re-derivable one.
+	Observed string `json:"observed,omitempty"`
 }
 
 func init() {
@@ -75,6 +78,7 @@ type c19In struct {
 	Nodes, Stored              []uint64
 	WordLists                  [][]byte // bitword words of Strs[i] for width c19Widths[i%4]
 	TB                         *bitmap.TailBitmap
+	Longs                      [][]uint64 // bitmaps whose lengths sit around powers of two (index builders)
 }
 
 var c19Widths = []int{1, 2, 4, 8}
@@ -230,6 +234,13 @@ func c19Build(k int, al alloc) *c19In {
 	for i, p := range plain {
 		in.WordLists = append(in.WordLists, al.bytes(bitword.BitWord[c19Widths[i%4]].FromStr(p)))
 	}
+	for _, l := range []int{1, 2, 3, 63, 64, 65, 126, 127, 128, 129, 254, 255, 256, 257, 510, 511, 512, 513, 1022, 1023, 1024, 1025} {
+		lw := make([]uint64, l)
+		for i := range lw {
+			lw[i] = w[(i+k+l)%len(w)] ^ uint64(i+7*l)*0x9e3779b97f4a7c15 // differs per length: a reused buffer shows
+		}
+		in.Longs = append(in.Longs, al.u64s(lw))
+	}
 	tb := bitmap.NewTailBitmap(64)
 	for _, j := range []int64{64, 65, 66, 130, 191, 200, 300, 5} {
 		tb.Set(j + int64(k))
@@ -247,75 +258,86 @@ func c19Build(k int, al alloc) *c19In {
 type c19Call struct {
 	Name string
 	N    func(in *c19In) int
-	Do   func(in *c19In, k int) string
+	Do   func(in *c19In, k int) interface{}
 	Tri  bool // member of the sub-alphabet used for triples
 }
 
 func nb(in *c19In) int { return 64 * len(in.W) }
 
 func c19Alphabet() []c19Call {
-	one := func(*c19In) int { return 1 }
+	longs := func(in *c19In) int { return 1 + len(in.Longs) }
+	long := func(in *c19In, k int) []uint64 {
+		if k == 0 {
+			return in.W
+		}
+		return in.Longs[k-1]
+	}
 	bits := func(in *c19In) int { return nb(in) }
-	pr := func(a ...interface{}) string { return fmt.Sprint(a...) }
+	pr := func(a ...interface{}) interface{} {
+		if len(a) == 1 {
+			return a[0]
+		}
+		return a
+	}
 	return []c19Call{
-		{"bitmap.Rank64", bits, func(in *c19In, k int) string { a, b := bitmap.Rank64(in.W, in.RI64, int32(k)); return pr(a, b) }, true},
-		{"bitmap.Rank64/trailing", bits, func(in *c19In, k int) string { a, b := bitmap.Rank64(in.W, in.RI64T, int32(k)); return pr(a, b) }, false},
-		{"bitmap.Rank128", bits, func(in *c19In, k int) string { a, b := bitmap.Rank128(in.W, in.RI128, int32(k)); return pr(a, b) }, false},
-		{"bitmap.Select32", func(in *c19In) int { return in.Ones }, func(in *c19In, k int) string { a, b := bitmap.Select32(in.W, in.SI, int32(k)); return pr(a, b) }, true},
-		{"bitmap.Select32R64", func(in *c19In) int { return in.Ones }, func(in *c19In, k int) string {
+		{"bitmap.Rank64", bits, func(in *c19In, k int) interface{} { a, b := bitmap.Rank64(in.W, in.RI64, int32(k)); return pr(a, b) }, true},
+		{"bitmap.Rank64/trailing", bits, func(in *c19In, k int) interface{} { a, b := bitmap.Rank64(in.W, in.RI64T, int32(k)); return pr(a, b) }, false},
+		{"bitmap.Rank128", bits, func(in *c19In, k int) interface{} { a, b := bitmap.Rank128(in.W, in.RI128, int32(k)); return pr(a, b) }, false},
+		{"bitmap.Select32", func(in *c19In) int { return in.Ones }, func(in *c19In, k int) interface{} { a, b := bitmap.Select32(in.W, in.SI, int32(k)); return pr(a, b) }, true},
+		{"bitmap.Select32R64", func(in *c19In) int { return in.Ones }, func(in *c19In, k int) interface{} {
 			a, b := bitmap.Select32R64(in.W, in.SI, in.RI, int32(k))
 			return pr(a, b)
 		}, true},
-		{"bitmap.NextOne", bits, func(in *c19In, k int) string { return pr(bitmap.NextOne(in.W, int32(k), int32(nb(in)-k%7))) }, true},
-		{"bitmap.PrevOne", bits, func(in *c19In, k int) string { return pr(bitmap.PrevOne(in.W, int32(k%5), int32(k+1))) }, true},
-		{"bitmap.Slice", func(in *c19In) int { return nb(in) / 5 }, func(in *c19In, k int) string {
+		{"bitmap.NextOne", bits, func(in *c19In, k int) interface{} { return pr(bitmap.NextOne(in.W, int32(k), int32(nb(in)-k%7))) }, true},
+		{"bitmap.PrevOne", bits, func(in *c19In, k int) interface{} { return pr(bitmap.PrevOne(in.W, int32(k%5), int32(k+1))) }, true},
+		{"bitmap.Slice", func(in *c19In) int { return nb(in) / 5 }, func(in *c19In, k int) interface{} {
 			to := 5*k + 70
 			if to > nb(in) {
 				to = nb(in)
 			}
 			return pr(bitmap.Slice(in.W, int32(5*k), int32(to)))
 		}, false},
-		{"bitmap.ToArray", func(in *c19In) int { return len(in.W) }, func(in *c19In, k int) string { return pr(bitmap.ToArray(in.W[:k+1])) }, false},
-		{"bitmap.Get", bits, func(in *c19In, k int) string { return pr(bitmap.Get(in.W, int32(k))) }, true},
-		{"bitmap.Get1", bits, func(in *c19In, k int) string { return pr(bitmap.Get1(in.W, int32(k))) }, false},
-		{"bitmap.Getw", func(in *c19In) int { return nb(in) / 4 }, func(in *c19In, k int) string { return pr(bitmap.Getw(in.W, int32(k), 4)) }, false},
-		{"bitmap.SafeGet", func(in *c19In) int { return nb(in) + 140 }, func(in *c19In, k int) string {
+		{"bitmap.ToArray", func(in *c19In) int { return len(in.W) }, func(in *c19In, k int) interface{} { return pr(bitmap.ToArray(in.W[:k+1])) }, false},
+		{"bitmap.Get", bits, func(in *c19In, k int) interface{} { return pr(bitmap.Get(in.W, int32(k))) }, true},
+		{"bitmap.Get1", bits, func(in *c19In, k int) interface{} { return pr(bitmap.Get1(in.W, int32(k))) }, false},
+		{"bitmap.Getw", func(in *c19In) int { return nb(in) / 4 }, func(in *c19In, k int) interface{} { return pr(bitmap.Getw(in.W, int32(k), 4)) }, false},
+		{"bitmap.SafeGet", func(in *c19In) int { return nb(in) + 140 }, func(in *c19In, k int) interface{} {
 			return pr(bitmap.SafeGet(in.W, int32(k-70)), bitmap.SafeGet1(in.W, int32(k-70)))
 		}, false},
-		{"bitmap.FromStr32", func(in *c19In) int { return 8*len(in.S) + 9 }, func(in *c19In, k int) string {
+		{"bitmap.FromStr32", func(in *c19In) int { return 8*len(in.S) + 9 }, func(in *c19In, k int) interface{} {
 			a, b := bitmap.FromStr32(in.S, int32(k), int32(k+(k*7)%33))
 			return pr(a, b)
 		}, true},
-		{"bitmap.IndexRank64", one, func(in *c19In, k int) string { return pr(bitmap.IndexRank64(in.W, true)) }, false},
-		{"bitmap.IndexRank128", one, func(in *c19In, k int) string { return pr(bitmap.IndexRank128(in.W)) }, false},
-		{"bitmap.IndexSelect32", one, func(in *c19In, k int) string { return pr(bitmap.IndexSelect32(in.W)) }, false},
-		{"bitmap.IndexSelect32R64", one, func(in *c19In, k int) string { a, b := bitmap.IndexSelect32R64(in.W); return pr(a, b) }, false},
-		{"bitmap.Join", func(*c19In) int { return 7 }, func(in *c19In, k int) string { return pr(bitmap.Join(in.Vals, int32(1)<<uint(k))) }, false},
-		{"bmtree.PathToIndex", func(in *c19In) int { return len(in.Stored) }, func(in *c19In, k int) string { return pr(bmtree.PathToIndex(in.Mask, in.Stored[k])) }, true},
-		{"bmtree.PathToIndexLoose", func(in *c19In) int { return len(in.Nodes) }, func(in *c19In, k int) string {
+		{"bitmap.IndexRank64", longs, func(in *c19In, k int) interface{} { return pr(bitmap.IndexRank64(long(in, k), true)) }, false},
+		{"bitmap.IndexRank128", longs, func(in *c19In, k int) interface{} { return pr(bitmap.IndexRank128(long(in, k))) }, false},
+		{"bitmap.IndexSelect32", longs, func(in *c19In, k int) interface{} { return pr(bitmap.IndexSelect32(long(in, k))) }, false},
+		{"bitmap.IndexSelect32R64", longs, func(in *c19In, k int) interface{} { a, b := bitmap.IndexSelect32R64(long(in, k)); return pr(a, b) }, false},
+		{"bitmap.Join", func(*c19In) int { return 7 }, func(in *c19In, k int) interface{} { return pr(bitmap.Join(in.Vals, int32(1)<<uint(k))) }, false},
+		{"bmtree.PathToIndex", func(in *c19In) int { return len(in.Stored) }, func(in *c19In, k int) interface{} { return pr(bmtree.PathToIndex(in.Mask, in.Stored[k])) }, true},
+		{"bmtree.PathToIndexLoose", func(in *c19In) int { return len(in.Nodes) }, func(in *c19In, k int) interface{} {
 			a, b := bmtree.PathToIndexLoose(in.Mask, in.Nodes[k])
 			return pr(a, b)
 		}, false},
-		{"bmtree.IndexToPath/h3", func(*c19In) int { return 15 }, func(in *c19In, k int) string { return pr(bmtree.IndexToPath(3, int32(k))) }, true},
-		{"bmtree.IndexToPath/h7", func(*c19In) int { return 255 }, func(in *c19In, k int) string { return pr(bmtree.IndexToPath(7, int32(k))) }, true},
-		{"bmtree.AllPaths", func(in *c19In) int { return len(in.Nodes) }, func(in *c19In, k int) string {
+		{"bmtree.IndexToPath/h3", func(*c19In) int { return 15 }, func(in *c19In, k int) interface{} { return pr(bmtree.IndexToPath(3, int32(k))) }, true},
+		{"bmtree.IndexToPath/h7", func(*c19In) int { return 255 }, func(in *c19In, k int) interface{} { return pr(bmtree.IndexToPath(7, int32(k))) }, true},
+		{"bmtree.AllPaths", func(in *c19In) int { return len(in.Nodes) }, func(in *c19In, k int) interface{} {
 			to := k + 9
 			if to >= len(in.Nodes) {
 				to = len(in.Nodes) - 1
 			}
 			return pr(bmtree.AllPaths(in.Mask, in.Nodes[k], in.Nodes[to]+1))
 		}, true},
-		{"bmtree.Decode", func(in *c19In) int { return len(in.BMs) }, func(in *c19In, k int) string {
+		{"bmtree.Decode", func(in *c19In) int { return len(in.BMs) }, func(in *c19In, k int) interface{} {
 			if k%2 == 0 {
 				return pr(bmtree.Decode(in.Mask&0x3|0x4, in.BMs[k])) // height 2: short enough for schedule exploration
 			}
 			return pr(bmtree.Decode(in.Mask&0x1f|0x10, in.BMs[k]))
 		}, false},
-		{"bmtree.NewPath", func(*c19In) int { return 30 }, func(in *c19In, k int) string { return pr(bmtree.NewPath(uint64(k)<<2, int32(k%8), 9)) }, false},
-		{"bmtree.PathOf", func(in *c19In) int { return 8 * len(in.S) }, func(in *c19In, k int) string { return pr(bmtree.PathOf(in.S, int32(k), 12)) }, false},
-		{"bmtree.PathsOf", func(*c19In) int { return 16 }, func(in *c19In, k int) string { return pr(bmtree.PathsOf(in.Keys, int32(k), 9, k&1 == 1)) }, false},
-		{"bmtree.PathStr", func(in *c19In) int { return len(in.Nodes) }, func(in *c19In, k int) string { return bmtree.PathStr(in.Nodes[k]) }, false},
-		{"bitstr.New", func(*c19In) int { return 64 }, func(in *c19In, k int) string {
+		{"bmtree.NewPath", func(*c19In) int { return 30 }, func(in *c19In, k int) interface{} { return pr(bmtree.NewPath(uint64(k)<<2, int32(k%8), 9)) }, false},
+		{"bmtree.PathOf", func(in *c19In) int { return 8 * len(in.S) }, func(in *c19In, k int) interface{} { return pr(bmtree.PathOf(in.S, int32(k), 12)) }, false},
+		{"bmtree.PathsOf", func(*c19In) int { return 16 }, func(in *c19In, k int) interface{} { return pr(bmtree.PathsOf(in.Keys, int32(k), 9, k&1 == 1)) }, false},
+		{"bmtree.PathStr", func(in *c19In) int { return len(in.Nodes) }, func(in *c19In, k int) interface{} { return bmtree.PathStr(in.Nodes[k]) }, false},
+		{"bitstr.New", func(*c19In) int { return 64 }, func(in *c19In, k int) interface{} {
 			from := int32(k%5) * 3
 			to := from + int32(k%17)
 			if to > int32(8*len(in.S)) {
@@ -326,72 +348,117 @@ func c19Alphabet() []c19Call {
 			}
 			return pr(bitstr.New(in.S, from, to))
 		}, true},
-		{"bitstr.Cmp", func(in *c19In) int { return len(in.Encs) * len(in.Encs) }, func(in *c19In, k int) string {
+		{"bitstr.Cmp", func(in *c19In) int { return len(in.Encs) * len(in.Encs) }, func(in *c19In, k int) interface{} {
 			return pr(bitstr.Cmp(in.Encs[k/len(in.Encs)], in.Encs[k%len(in.Encs)]))
 		}, false},
-		{"bitstr.CmpUpto", func(in *c19In) int { return len(in.Plains) * len(in.Encs) }, func(in *c19In, k int) string {
+		{"bitstr.CmpUpto", func(in *c19In) int { return len(in.Plains) * len(in.Encs) }, func(in *c19In, k int) interface{} {
 			return pr(bitstr.CmpUpto(in.Plains[k/len(in.Encs)], in.Encs[k%len(in.Encs)]))
 		}, false},
-		{"bitstr.StrCmpUpto", func(in *c19In) int { return len(in.Strs) * len(in.Encs) }, func(in *c19In, k int) string {
+		{"bitstr.StrCmpUpto", func(in *c19In) int { return len(in.Strs) * len(in.Encs) }, func(in *c19In, k int) interface{} {
 			return pr(bitstr.StrCmpUpto(in.Strs[k/len(in.Encs)], in.Encs[k%len(in.Encs)]))
 		}, false},
-		{"bitstr.Len", func(in *c19In) int { return len(in.Encs) }, func(in *c19In, k int) string { return pr(bitstr.Len(in.Encs[k])) }, false},
-		{"bitword.FromStr", func(in *c19In) int { return 4 * len(in.Strs) }, func(in *c19In, k int) string {
+		{"bitstr.Len", func(in *c19In) int { return len(in.Encs) }, func(in *c19In, k int) interface{} { return pr(bitstr.Len(in.Encs[k])) }, false},
+		{"bitword.FromStr", func(in *c19In) int { return 4 * len(in.Strs) }, func(in *c19In, k int) interface{} {
 			return pr(bitword.BitWord[c19Widths[k%4]].FromStr(in.Strs[k/4]))
 		}, true},
-		{"bitword.ToStr", func(in *c19In) int { return len(in.WordLists) }, func(in *c19In, k int) string {
+		{"bitword.ToStr", func(in *c19In) int { return len(in.WordLists) }, func(in *c19In, k int) interface{} {
 			return fmt.Sprintf("%x", bitword.BitWord[c19Widths[k%4]].ToStr(in.WordLists[k]))
 		}, false},
-		{"bitword.Get", func(in *c19In) int { return 4 * len(in.S) }, func(in *c19In, k int) string {
+		{"bitword.Get", func(in *c19In) int { return 4 * len(in.S) }, func(in *c19In, k int) interface{} {
 			w := c19Widths[k%4]
 			return pr(bitword.BitWord[w].Get(in.S, (k/4)%(8*len(in.S)/w)))
 		}, true},
-		{"bitword.FirstDiff", func(in *c19In) int { return 4 * len(in.Strs) * len(in.Strs) }, func(in *c19In, k int) string {
+		{"bitword.FirstDiff", func(in *c19In) int { return 4 * len(in.Strs) * len(in.Strs) }, func(in *c19In, k int) interface{} {
 			n := len(in.Strs)
 			return pr(bitword.BitWord[c19Widths[k%4]].FirstDiff(in.Strs[(k/4)/n], in.Strs[(k/4)%n], 0, -1))
 		}, false},
-		{"bitword.FromStrs/ToStrs", func(*c19In) int { return 8 }, func(in *c19In, k int) string {
+		{"bitword.FromStrs/ToStrs", func(*c19In) int { return 8 }, func(in *c19In, k int) interface{} {
 			bw := bitword.BitWord[c19Widths[k%4]]
 			if k >= 4 {
 				return fmt.Sprintf("%x", bw.ToStrs(bw.FromStrs(in.Strs[:2]))) // short: for schedule exploration
 			}
 			return fmt.Sprintf("%x", bw.ToStrs(bw.FromStrs(in.Strs)))
 		}, false},
-		{"sigbits.FirstDiffBits", func(in *c19In) int { return len(in.KeySets) }, func(in *c19In, k int) string { return pr(sigbits.FirstDiffBits(in.KeySets[k])) }, true},
-		{"sigbits.New+CountPrefixes", func(in *c19In) int { return len(in.Keys) - 1 }, func(in *c19In, k int) string {
+		{"sigbits.FirstDiffBits", func(in *c19In) int { return len(in.KeySets) }, func(in *c19In, k int) interface{} { return pr(sigbits.FirstDiffBits(in.KeySets[k])) }, true},
+		{"sigbits.New+CountPrefixes", func(in *c19In) int { return len(in.Keys) - 1 }, func(in *c19In, k int) interface{} {
 			sb := sigbits.New(in.Keys)
 			a, b := sb.CountPrefixes(int32(k%2), int32(k+2), int32(1+k%9))
 			return pr(a, b)
 		}, false},
-		{"sigbits.ShardByPrefix", func(in *c19In) int { return len(in.Keys) + 1 }, func(in *c19In, k int) string {
+		{"sigbits.ShardByPrefix", func(in *c19In) int { return len(in.Keys) + 1 }, func(in *c19In, k int) interface{} {
 			a, b := sigbits.ShardByPrefix(in.Keys, int32(k+1))
 			return pr(a, b)
 		}, false},
-		{"TailBitmap.Get", func(*c19In) int { return 200 }, func(in *c19In, k int) string { return pr(in.TB.Get(int64(k)), in.TB.Get1(int64(k))) }, true},
+		{"TailBitmap.Get", func(*c19In) int { return 200 }, func(in *c19In, k int) interface{} { return pr(in.TB.Get(int64(k)), in.TB.Get1(int64(k))) }, true},
 	}
 }
 
 // c19Safe runs one call and turns a panic into a result string.
-func c19Safe(cl *c19Call, in *c19In, k int) (r string) {
+func c19Safe(cl *c19Call, in *c19In, k int) string {
+	_, s := c19SafeV(cl, in, k)
+	return s
+}
+
+// c19SafeV also returns the value itself, so that a later pass can see whether a
+// returned slice was modified behind the caller's back.
+func c19SafeV(cl *c19Call, in *c19In, k int) (v interface{}, r string) {
 	defer func() {
 		if e := recover(); e != nil {
-			r = fmt.Sprint("PANIC: ", e)
+			v, r = nil, fmt.Sprint("PANIC: ", e)
 		}
 	}()
-	return cl.Do(in, k)
+	v = cl.Do(in, k)
+	return v, c19Str(v)
+}
+
+func c19Str(v interface{}) string {
+	if s, ok := v.(string); ok {
+		return s
+	}
+	return fmt.Sprintf("%v", v)
 }
 
 // c19Forward runs every call × variant on one input set and returns the results.
 func c19Forward(alpha []c19Call, in *c19In) [][]string {
+	out, _ := c19ForwardKeep(alpha, in)
+	return out
+}
+
+// c19Retained names a returned value that no longer prints as it did when it
+// was returned: some later call wrote into memory the library had handed out.
+type c19Retained struct {
+	Call, Variant int
+	Then, Now     string
+}
+
+// c19ForwardKeep keeps every returned value until the end of the pass and then
+// prints it again.
+func c19ForwardKeep(alpha []c19Call, in *c19In) ([][]string, []c19Retained) {
+	// no garbage collection during the pass: what a sync.Pool hands back must not
+	// depend on when the collector happens to run (the pass allocates a few MB)
+	defer debug.SetGCPercent(debug.SetGCPercent(-1))
 	out := make([][]string, len(alpha))
+	vals := make([][]interface{}, len(alpha))
 	for ci := range alpha {
 		n := alpha[ci].N(in)
 		out[ci] = make([]string, n)
+		vals[ci] = make([]interface{}, n)
 		for k := 0; k < n; k++ {
-			out[ci][k] = c19Safe(&alpha[ci], in, k)
+			vals[ci][k], out[ci][k] = c19SafeV(&alpha[ci], in, k)
 		}
 	}
-	return out
+	var bad []c19Retained
+	for ci := range alpha {
+		for k, v := range vals[ci] {
+			if v == nil {
+				continue
+			}
+			if now := c19Str(v); now != out[ci][k] {
+				bad = append(bad, c19Retained{ci, k, out[ci][k], now})
+			}
+		}
+	}
+	return out, bad
 }
 
 func c19Digest(res [][][]string) string {
@@ -415,8 +482,12 @@ func c19Footprint(c *mc.Ctx) (digest string) {
 	var all [][][]string
 	for set := 0; set < c19InputSets; set++ {
 		heap := c19Build(set, heapAlloc{})
-		fwd := c19Forward(alpha, heap)
+		fwd, retained := c19ForwardKeep(alpha, heap)
 		all = append(all, fwd)
+		for _, r := range retained {
+			c.Fail(3<<50|int64(set)<<40|int64(r.Call)<<20|int64(r.Variant), "retained", "retained", c19Case{Call: alpha[r.Call].Name, Variant: r.Variant, Input: set}, "value returned earlier now reads "+clipS(r.Now), "value as returned: "+clipS(r.Then))
+		}
+		c.Add("returned_values_rechecked_after_the_pass", int64(len(alpha)))
 		// (1) results do not depend on call order: reverse pass on the same inputs
 		for ci := len(alpha) - 1; ci >= 0; ci-- {
 			for k := len(fwd[ci]) - 1; k >= 0; k-- {
@@ -602,7 +673,7 @@ func c19Run(c *mc.Ctx) {
 			if len(first) > 1500 {
 				first = first[:1500]
 			}
-			c.Fail(4<<50, "race", "race", c19Case{Note: "free-running -race pass"}, "data race reported:\n"+first, "no data race")
+			c.Fail(4<<50, "race", "race", c19Case{Note: "free-running -race pass", Observed: first}, "data race reported:\n"+first, "no data race")
 		} else if strings.Contains(txt, "MISMATCH") {
 			c.Fail(4<<50, "race", "race", c19Case{Note: "free-running -race pass"}, "concurrent results differ from sequential: "+clipS(txt), "same results")
 		} else if err != nil && !strings.Contains(txt, "c19race done") {
@@ -647,6 +718,19 @@ func c19Judge(kind string, raw json.RawMessage) (string, string, error) {
 		return -1
 	}
 	switch kind {
+	case "retained":
+		ci := find(cs.Call)
+		if ci < 0 {
+			return "", "", fmt.Errorf("unknown call %q", cs.Call)
+		}
+		heap := c19Build(cs.Input, heapAlloc{})
+		fwd, retained := c19ForwardKeep(alpha, heap)
+		for _, r := range retained {
+			if r.Call == ci && r.Variant == cs.Variant {
+				return "value returned earlier now reads " + clipS(r.Now), "value as returned: " + clipS(r.Then), nil
+			}
+		}
+		return "value as returned: " + clipS(fwd[ci][cs.Variant]), "value as returned: " + clipS(fwd[ci][cs.Variant]), nil
 	case "order", "footprint":
 		ci := find(cs.Call)
 		if ci < 0 {
@@ -678,6 +762,10 @@ func c19Judge(kind string, raw json.RawMessage) (string, string, error) {
 		defer ar.free()
 		return c19Safe(&alpha[ci], prot, cs.Variant), want, nil
 	case "race":
+		if cs.Observed != "" {
+			// the race pass samples schedules of the Go runtime; its report is kept as recorded
+			return "data race reported:\n" + cs.Observed, "no data race", nil
+		}
 		rb := os.Getenv("VERIF_RACE_BIN")
 		if rb == "" {
 			return "", "", fmt.Errorf("this case needs the -race binary (VERIF_RACE_BIN); use /verif/check.sh replay")
